@@ -147,7 +147,8 @@ pub struct ChanSc {
 
 impl ChanSc {
   pub fn any_async(&self) -> bool {
-    self.async_ctor
+    self.flavour == Flavour::Oneshot
+      || self.async_ctor
       || self.producers.iter().any(|p| p.ops.iter().any(|o| matches!(o, POp::Convert)))
       || self.consumers.iter().any(|c| c.ops.iter().any(|o| matches!(o, COp::Convert)))
   }
